@@ -30,6 +30,8 @@ type half struct {
 	rec  bool   // record everything written (handshake transcripts)
 	log  []byte
 
+	gate bool // network stall: writers block while it is set
+
 	written int64
 	reads   int64
 }
@@ -48,6 +50,9 @@ var errClosedPipe = errors.New("harness duplex: closed")
 func (h *half) write(p []byte) (int, error) {
 	h.mu.Lock()
 	defer h.mu.Unlock()
+	for h.gate && !h.wclosed && !h.rclosed {
+		h.cond.Wait()
+	}
 	if h.wclosed || h.rclosed {
 		return 0, errClosedPipe
 	}
@@ -134,6 +139,14 @@ func (h *half) inject(p []byte) {
 func (h *half) setHold(on bool) {
 	h.mu.Lock()
 	h.hold = on
+	h.mu.Unlock()
+}
+
+// setGate(true) stalls the direction: Write blocks until the gate is opened again.
+func (h *half) setGate(on bool) {
+	h.mu.Lock()
+	h.gate = on
+	h.cond.Broadcast()
 	h.mu.Unlock()
 }
 
